@@ -113,6 +113,8 @@ func runStandins(w *World, repo, verif, prop, tier string, seed int) []standinRe
 	return res
 }
 
-func replayOnRealCode(w *World, repo, verif, prop string, o *Obligation) (string, bool) { return "", false }
+func replayOnRealCode(w *World, repo, verif, prop string, o *Obligation) (string, bool) {
+	return "", false
+}
 
 func runSelftest(repo, verif string, a []string) int { return 2 }
